@@ -55,8 +55,8 @@ def gen_sources(outdir, Ls):
     d.append('  if (cmd == "norm") { auto L = t.nat(); auto ncell = t.nat(); auto ns = t.nat(); switch (L) {')
     for L in Ls: d.append(f"    case {L}: return DenseCfg<{L}>::norm(t, ncell, ns);")
     d.append('    default: return "no-cfg"; } }')
-    d.append('  if (cmd == "rates" || cmd == "ratesx") { auto L = t.nat(); auto ncell = t.nat(); auto np = t.nat(); bool reuse = cmd == "ratesx"; switch (L) {')
-    for L in Ls: d.append(f"    case {L}: return DenseCfg<{L}>::rates(t, ncell, np, reuse);")
+    d.append('  if (cmd == "rates" || cmd == "ratesx" || cmd == "ratesu") { auto L = t.nat(); auto ncell = t.nat(); auto np = t.nat(); bool reuse = cmd == "ratesx"; bool pos = cmd == "ratesu"; switch (L) {')
+    for L in Ls: d.append(f"    case {L}: return DenseCfg<{L}>::rates(t, ncell, np, reuse, pos);")
     d.append('    default: return "no-cfg"; } }')
     d.append('  if (cmd == "cpassign") { auto L = t.nat(); auto ns = t.nat(); auto ncell = t.nat(); switch (L) {')
     for L in Ls: d.append(f"    case {L}: return DenseCfg<{L}>::cpassign(t, ns, ncell);")
